@@ -9,6 +9,7 @@
   (one `Group` = one 4-field porcelain header + continuation lines).
 -/
 import GitAiModel.Lemmas.BlameOverlay
+import GitAiModel.Lemmas.BlameRange
 import GitAiModel.Base.Chars
 namespace GitAi.BlameOverlay
 open GitAi GitAi.NoteFormat GitAi.GitPath
@@ -257,8 +258,8 @@ example :
       author string the overlay stored for that line;
     * `--porcelain` / `--line-porcelain`: every line with `bl`'s commit;
     * `--incremental`: its per-hunk headers expand to the same line → commit map;
-    * `--json`: the emitted ranges expand to exactly the `line_authors` rows whose value is a key
-      of `prompt_records` (no line lost, duplicated or shifted by the range grouping). -/
+    * `--json`: the emitted ranges expand to exactly the rows of `line_prompt_hashes` (the lines
+      the overlay labelled `ai`; no line lost, duplicated or shifted by the range grouping). -/
 theorem formats_agree (full : Bool) (o : Opts) (notes : List (Str × Note))
     (foreign : List (Str × Prompt)) (blamed : Str) (gs : List Group)
     (hok : ∀ g ∈ gs, GroupOk g) (hasc : Ascending gs) :
@@ -270,9 +271,7 @@ theorem formats_agree (full : Bool) (o : Opts) (notes : List (Str × Note))
             labelStr o bl.author (lineLabel notes foreign blamed bl))) ∧
        porcelainRows hs = (blameLines gs).map (fun bl => (bl.final, bl.commit)) ∧
        expandIncremental (incrementalRows hs) = (blameLines gs).map (fun bl => (bl.final, bl.commit)) ∧
-       ∀ keys : List Str,
-         expandRuns (jsonRuns (la.filter (fun x => keys.contains x.2))) =
-           la.filter (fun x => keys.contains x.2)) := by
+       expandRuns (jsonRuns (aiRows out)) = aiRows out) := by
   have hp := (parse_render full gs hok).1
   refine ⟨gs.map groupHunk, (blameLines gs).map (fun bl => (bl, lineLabel notes foreign blamed bl)),
     hp, ?_, ?_, ?_, ?_, ?_⟩
@@ -290,60 +289,178 @@ theorem formats_agree (full : Bool) (o : Opts) (notes : List (Str × Note))
   · simp [porcelainRows, hunksLines_groupHunks]
   · rw [expandIncremental_rows]
     simp [porcelainRows, hunksLines_groupHunks]
-  · intro keys
-    exact (jsonRuns_facts _).2
+  · exact (jsonRuns_facts _).2
 
 /-- the JSON range keys parse back to the runs (`"7"` / `"7-9"`) -/
 theorem json_key_roundtrip (s e : Nat) (hs : s < 4294967296) (he : e < 4294967296) :
     parsePart (jsonKey s e) = .ok (if s = e then .single s else .range s e) :=
   jsonKey_parse s e hs he
 
-/-- **JSON lists exactly the AI lines** (`--json` runs with prompt hashes as names): provided no
-    non-AI row's author string happens to be a key of `prompt_records` (`hclash`), filtering
-    `line_authors` by `prompt_records.contains_key` keeps exactly the rows the overlay labelled
-    `ai S`, with `S` as the value. -/
-theorem json_ai_lines_partial (o : Opts) (ho : o.hashesAsNames = true)
-    (out : List (BlameLine × Label)) (keys : List Str)
-    (hkeys : ∀ x ∈ out, ∀ S p, x.2 = .ai S p → S ∈ keys)
-    (hclash : ∀ x ∈ out, (∀ S p, x.2 ≠ .ai S p) → labelStr o x.1.author x.2 ∉ keys) :
-    (out.map (fun x => (x.1.final, labelStr o x.1.author x.2))).filter
-        (fun x => keys.contains x.2) =
+/-- **JSON lists exactly the AI lines** — no side condition on author names (the former
+    `json_ai_lines_partial` needed `hclash`: no human author string equal to a key of
+    `prompt_records`; /repo now keeps the kind of each line next to the display string).
+    The expanded `lines` object is exactly the rows the overlay labelled `ai S`, with `S` as the
+    value, whatever the options and whatever any author is called. -/
+theorem json_ai_lines (out : List (BlameLine × Label)) :
+    expandRuns (jsonRuns (aiRows out)) =
       out.filterMap (fun x => match x.2 with
         | .ai S _ => some (x.1.final, S)
-        | _ => none) := by
-  induction out with
-  | nil => rfl
-  | cons x xs ih =>
-    have ih' := ih (fun y hy => hkeys y (by simp [hy])) (fun y hy => hclash y (by simp [hy]))
-    obtain ⟨bl, lab⟩ := x
-    rw [List.map_cons, List.filter_cons, List.filterMap_cons, ih']
-    cases lab with
-    | ai S p =>
-      have hS : S ∈ keys := hkeys (bl, .ai S p) (by simp) S p rfl
-      simp [labelStr, ho, hS]
-    | human =>
-      have := hclash (bl, .human) (by simp) (by intro S p h; cases h)
-      simp only at this
-      simp [this]
-    | noNote =>
-      have := hclash (bl, .noNote) (by simp) (by intro S p h; cases h)
-      simp only at this
-      simp [this]
+        | _ => none) :=
+  (jsonRuns_facts _).2
 
-/-- negation witness for `hclash`: a human author whose *name* equals a session hash recorded
-    elsewhere in the file is listed by `--json` under that session (line 1 is human). -/
-theorem witness_json_name_clash :
-    let out : List (BlameLine × Label) :=
-      [(⟨1, 1, chars% "c0", chars% "f", chars% "60f1", false⟩, .human),
-       (⟨2, 1, chars% "c1", chars% "f", chars% "Test User", false⟩, .ai (chars% "60f1") o8Prompt)]
-    let o : Opts := { hashesAsNames := true }
-    expandRuns (jsonRuns ((out.map (fun x => (x.1.final, labelStr o x.1.author x.2))).filter
-        (fun x => [chars% "60f1"].contains x.2))) =
-      [(1, chars% "60f1"), (2, chars% "60f1")] := by
+/-- **C09, JSON end to end.** On git's porcelain for the entries `gs`, with any notes, foreign
+    table, blamed path and options, `git-ai blame --json` lists line `ℓ` under session `S`
+    **iff** `ℓ` is a line of `bl` whose originating commit's note credits its original line to `S`
+    under the path the file had in that commit. Author names play no role. -/
+theorem json_lists_exactly_credited (full : Bool) (o : Opts) (notes : List (Str × Note))
+    (foreign : List (Str × Prompt)) (blamed : Str) (gs : List Group)
+    (hok : ∀ g ∈ gs, GroupOk g) (hfn : ∀ g ∈ gs, g.filename ≠ []) :
+    ∃ out, analysis o notes foreign blamed (renderLinePorcelain full gs) = .ok out ∧
+      ∀ ℓ S, (ℓ, S) ∈ expandRuns (jsonRuns (aiRows out)) ↔
+        ∃ bl ∈ blameLines gs, bl.final = ℓ ∧
+          ∃ n p, lookup bl.commit notes = some n ∧ Credits n foreign bl.origPath bl.orig S p := by
+  obtain ⟨out, h1, m1, s1⟩ := overlay_spec full o notes foreign blamed gs hok hfn
+  refine ⟨out, h1, ?_⟩
+  intro ℓ S
+  rw [json_ai_lines, List.mem_filterMap]
+  constructor
+  · rintro ⟨x, hx, hfx⟩
+    have hmem : x.1 ∈ blameLines gs := by
+      rw [← m1]; exact List.mem_map.2 ⟨x, hx, rfl⟩
+    cases hx2 : x.2 with
+    | ai S' p =>
+      rw [hx2] at hfx
+      simp only [Option.some.injEq, Prod.mk.injEq] at hfx
+      obtain ⟨hl, hS⟩ := hfx
+      subst hS
+      obtain ⟨n, hn, hc⟩ := ((s1 x hx).1 S' p).1 hx2
+      exact ⟨x.1, hmem, hl, n, p, hn, hc⟩
+    | human => rw [hx2] at hfx; cases hfx
+    | noNote => rw [hx2] at hfx; cases hfx
+  · rintro ⟨bl, hbl, hl, n, p, hn, hc⟩
+    rw [← m1] at hbl
+    obtain ⟨x, hx, rfl⟩ := List.mem_map.1 hbl
+    have hx2 : x.2 = .ai S p := ((s1 x hx).1 S p).2 ⟨n, hn, hc⟩
+    exact ⟨x, hx, by rw [hx2, hl]⟩
+
+/-- `--show-prompt` never dresses a human line as a session: a line without a row in
+    `line_prompt_hashes` shows its `line_authors` string unchanged. -/
+theorem show_prompt_human_unchanged (sp : Bool) (ai : List (Nat × Str))
+    (prompts : List (Str × Prompt)) (line : Nat) (author : Str)
+    (h : lookupLast line ai = none) :
+    displayAuthor sp (aiPromptOf ai prompts line) author = author := by
+  unfold aiPromptOf
+  rw [h]
+  cases sp <;> rfl
+
+/-! ### the name-clash witness (former finding `json:human-name-equals-prompt-hash`, now a
+    regression instance: fixed in /repo)
+
+  Line 1 of `f` comes from a human commit `c0` whose author's git name is `60f1…` — the very
+  session hash that commit `c1` credits line 2 to. Before the repair `--json` listed lines 1–2
+  under the session and `--show-prompt` showed line 1 as `mock_agent [60f1…]`. -/
+
+def clashGroups : List Group :=
+  [ { commit := chars% "c0", origStart := 1, finalStart := 1, info := o8Info (chars% "60f1") false,
+      filename := chars% "f", first := chars% "h1", rest := [] },
+    { commit := chars% "c1", origStart := 1, finalStart := 2, info := o8Info (chars% "Test User") false,
+      filename := chars% "f", first := chars% "AI1", rest := [] } ]
+
+def clashNotes : List (Str × Note) :=
+  [ (chars% "c1", { files := [⟨chars% "f", [⟨chars% "60f1", [.single 1]⟩]⟩],
+                    prompts := [(chars% "60f1", o8Prompt)] }),
+    (chars% "c0", { files := [], prompts := [] }) ]
+
+/-- `--json` on the witness lists line 2 only; `--show-prompt` shows line 1 under the human's
+    (odd) name and line 2 as `mock_agent [60f1]`. -/
+theorem name_clash_fixed :
+    (analysis { hashesAsNames := true } clashNotes [] (chars% "f")
+        (renderLinePorcelain true clashGroups)).map
+        (fun out => (jsonLines (aiRows out),
+          showPromptRows { hashesAsNames := true } out (clashGroups.map groupHunk))) =
+      .ok ([(chars% "2", chars% "60f1")],
+           [(1, chars% "60f1"), (2, chars% "mock_agent [60f1]")]) := by
   decide
+
+/-- the witness is inside `json_lists_exactly_credited`'s hypotheses, and the old string test
+    (`prompt_records.contains_key(author)`) would have kept line 1: the author string of the
+    human row is a key of `prompt_records`. -/
+example : (∀ g ∈ clashGroups, GroupOk g) ∧ (∀ g ∈ clashGroups, g.filename ≠ []) ∧
+    [chars% "60f1"].contains (labelStr { hashesAsNames := true } (chars% "60f1") .human) = true := by
+  refine ⟨?_, ?_, by decide⟩ <;> intro g hg <;>
+    simp only [clashGroups, List.mem_cons, List.not_mem_nil, or_false] at hg <;>
+    rcases hg with rfl | rfl
+  all_goals first | exact ⟨⟨by decide, by decide⟩, by decide, by decide⟩ | decide
 
 end GitAi.BlameOverlay
 
+/-! ## 4. `-L`: the numeric range forms select the lines git selects -/
+namespace GitAi.BlameRange
+open GitAi
+
+/-- **C09 `-L`.** For each numeric form of git's `-L` argument — `a,b`, `a,+n`, `a,-n`, `a,`,
+    `,b` and the bare `a` — written with numbers that fit `u32` (counts positive), whenever the
+    lines git blame shows for it lie inside the file (`1 ≤ first ≤ last ≤ total`),
+    `parse_line_range` + `prepare_blame_request` hand exactly that first/last line to
+    `git blame -L first,last`. (Before /repo f2474c34 and 821fad3d, `2,+3` selected 2–3, the bare
+    `5` selected line 5 only and `5,` / `,5` / `5,-2` were refused.) -/
+theorem l_arg_spec (total : Nat) (sp : LSpec) (hwf : sp.wf) (htot : total < 4294967295)
+    (h1 : 1 ≤ (sp.gitLines total).1) (h2 : (sp.gitLines total).1 ≤ (sp.gitLines total).2)
+    (h3 : (sp.gitLines total).2 ≤ total) :
+    lArg total sp.render = some (sp.gitLines total) := by
+  cases sp with
+  | closed a b =>
+    obtain ⟨ha, hb⟩ := hwf
+    simp only [LSpec.gitLines] at h1 h2 h3
+    simp only [lArg, LSpec.render, LSpec.gitLines, parse_closed a b ha (by omega)]
+    rw [resolve_one total a b h1 h2 h3 (by unfold openEnd; omega)]
+  | plus a n =>
+    obtain ⟨ha, hn, hpos⟩ := hwf
+    simp only [LSpec.gitLines] at h1 h2 h3
+    have e : a + n - 1 = a + (n - 1) := by omega
+    simp only [lArg, LSpec.render, LSpec.gitLines, e,
+      parse_plus a n ha hn hpos (by omega)]
+    rw [resolve_one total a (a + (n - 1)) h1 (by omega) (by omega) (by unfold openEnd; omega)]
+  | minus a n =>
+    obtain ⟨ha, hn, hpos⟩ := hwf
+    simp only [LSpec.gitLines] at h1 h2 h3
+    have e : a + 1 - n = a - (n - 1) := by omega
+    simp only [lArg, LSpec.render, LSpec.gitLines, e, parse_minus a n ha hn hpos]
+    rw [resolve_one total _ a (by omega) (by omega) h3 (by unfold openEnd; omega)]
+  | openEnd a =>
+    simp only [LSpec.gitLines] at h1 h2 h3
+    simp only [lArg, LSpec.render, LSpec.gitLines, parse_open_end a hwf]
+    rw [resolve_open total a h1 h2]
+  | openStart b =>
+    simp only [LSpec.gitLines] at h1 h2 h3
+    simp only [lArg, LSpec.render, LSpec.gitLines, parse_open_start b (by unfold LSpec.wf at hwf; omega)]
+    rw [resolve_one total 1 b (by omega) h2 h3 (by unfold LSpec.wf at hwf; unfold openEnd; omega)]
+  | single a =>
+    simp only [LSpec.gitLines] at h1 h2 h3
+    simp only [lArg, LSpec.render, LSpec.gitLines, parse_single a hwf]
+    rw [resolve_open total a h1 h2]
+
+/-- regression instances (file of 8 lines): the former wrong answers and refusals -/
+theorem l_arg_witnesses :
+    lArg 8 (chars% "2,+3") = some (2, 4) ∧ lArg 8 (chars% "5") = some (5, 8) ∧
+    lArg 8 (chars% "5,") = some (5, 8) ∧ lArg 8 (chars% ",3") = some (1, 3) ∧
+    lArg 8 (chars% "5,-2") = some (4, 5) ∧ lArg 8 (chars% "2,4") = some (2, 4) ∧
+    -- outside the file, empty counts and non-numeric forms are refused, not answered
+    lArg 8 (chars% "7,+3") = none ∧ lArg 8 (chars% "2,+0") = none ∧
+    lArg 8 (chars% "/re/") = none ∧ lArg 8 (chars% "9") = none := by
+  decide
+
+/-- non-vacuity of `l_arg_spec`'s hypotheses for every form -/
+example : ∀ sp ∈ [LSpec.closed 2 4, .plus 2 3, .minus 5 2, .openEnd 5, .openStart 3, .single 5],
+    sp.wf ∧ 1 ≤ (sp.gitLines 8).1 ∧ (sp.gitLines 8).1 ≤ (sp.gitLines 8).2 ∧ (sp.gitLines 8).2 ≤ 8 := by
+  intro sp hsp
+  simp only [List.mem_cons, List.not_mem_nil, or_false] at hsp
+  rcases hsp with rfl | rfl | rfl | rfl | rfl | rfl <;> simp [LSpec.wf, LSpec.gitLines]
+
+end GitAi.BlameRange
+
+#print axioms GitAi.BlameRange.l_arg_spec
+#print axioms GitAi.BlameRange.l_arg_witnesses
 #print axioms GitAi.BlameOverlay.parse_render
 #print axioms GitAi.BlameOverlay.parse_render_text
 #print axioms GitAi.BlameOverlay.filename_roundtrip
@@ -352,5 +469,7 @@ end GitAi.BlameOverlay
 #print axioms GitAi.BlameOverlay.rename_witness_fixed
 #print axioms GitAi.BlameOverlay.formats_agree
 #print axioms GitAi.BlameOverlay.json_key_roundtrip
-#print axioms GitAi.BlameOverlay.json_ai_lines_partial
-#print axioms GitAi.BlameOverlay.witness_json_name_clash
+#print axioms GitAi.BlameOverlay.json_ai_lines
+#print axioms GitAi.BlameOverlay.json_lists_exactly_credited
+#print axioms GitAi.BlameOverlay.show_prompt_human_unchanged
+#print axioms GitAi.BlameOverlay.name_clash_fixed
